@@ -86,7 +86,7 @@ cur == [ver |-> ver, lock |-> lock, ins |-> ins, outs |-> outs]
 
 \* (enc: 0 = the unlocking data is byte for byte what the signer wrote; otherwise the code of the
 \* re-encoding / addition applied to it, see "unlocking-data mutations" below)
-NewIn(k) == [id |-> k, oph |-> 0, opi |-> 0, seq |-> 0, unl |-> k, enc |-> 0, known |-> TRUE, amt |-> 0, spk |-> k]
+NewIn(k) == [id |-> k, oph |-> 0, opi |-> 0, seq |-> 0, unl |-> k, enc |-> 0, known |-> TRUE, cut |-> FALSE, amt |-> 0, spk |-> k]
 NewOut(j) == [amt |-> j, spk |-> j]
 
 \* a transaction with nin inputs and nout outputs, input k signed with hash type H[k] under S[k]
@@ -145,6 +145,8 @@ Mut(m, a, b) == [m |-> m, a |-> a, b |-> b]
 UMuts == {"ss_pushdata", "wit_attach", "wit_append", "ss_prepend"}
 EncCode(x) == (CASE x.m = "ss_pushdata" -> 100 [] x.m = "wit_attach" -> 200 [] x.m = "wit_append" -> 300
                  [] x.m = "ss_prepend" -> 400) + x.b
+\* the list of spent outputs has been cut short (inputs are not inserted / removed / reordered then)
+Short == \E p \in 1..Len(ins) : ins[p].cut
 Enabled(x) ==
     CASE x.m = "ver" -> x.a = 0 /\ x.b \in {0, 1} /\ x.b # ver
       [] x.m = "lock" -> x.a = 0 /\ x.b \in {0, 1} /\ x.b # lock
@@ -161,9 +163,9 @@ Enabled(x) ==
              /\ x.b \in {ins[x.a].id, 10 + ins[x.a].id} \cup (IF nops[ins[x.a].id] THEN {30 + ins[x.a].id} ELSE {})
       [] x.m = "out_amt" -> x.a \in OutPositions /\ x.b \in OutTokens /\ x.b # outs[x.a].amt
       [] x.m = "out_spk" -> x.a \in OutPositions /\ x.b \in OutTokens /\ x.b # outs[x.a].spk
-      [] x.m = "ins_insert" -> x.a \in {1, Len(ins) + 1} /\ x.b = 0 /\ inserts < MaxInserts
-      [] x.m = "ins_remove" -> x.a \in Positions /\ x.b = 0 /\ Len(ins) > 1 /\ ~LooksCoinbase(Remove(ins, x.a))
-      [] x.m = "ins_swap" -> x.a \in Positions /\ x.b \in Positions /\ x.a < x.b
+      [] x.m = "ins_insert" -> x.a \in {1, Len(ins) + 1} /\ x.b = 0 /\ inserts < MaxInserts /\ ~Short
+      [] x.m = "ins_remove" -> x.a \in Positions /\ x.b = 0 /\ Len(ins) > 1 /\ ~LooksCoinbase(Remove(ins, x.a)) /\ ~Short
+      [] x.m = "ins_swap" -> x.a \in Positions /\ x.b \in Positions /\ x.a < x.b /\ ~Short
       [] x.m = "outs_insert" -> x.a \in {1, Len(outs) + 1} /\ x.b \in {3} /\ inserts < MaxInserts
       [] x.m = "outs_remove" -> x.a \in OutPositions /\ x.b = 0
       [] x.m = "outs_swap" -> x.a \in OutPositions /\ x.b \in OutPositions /\ x.a < x.b
@@ -183,7 +185,9 @@ Enabled(x) ==
                    [] x.m = "wit_attach" -> u \in {"ss", "p2sh"} /\ x.b \in {1, 2}
                    [] x.m = "wit_append" -> x.b = 0
                    [] x.m = "ss_prepend" -> x.b \in {1, 2})
-      [] x.m = "forget" -> x.a \in Positions /\ x.b = 0 /\ ins[x.a].known             \* the spent output becomes unknown
+      \* the spent output becomes unknown: b = 0 its entry in the list of spent outputs is blanked; b = 1 the
+      \* list is cut off before position a (a = 1: nothing is known any more), so it is SHORTER than the inputs
+      [] x.m = "forget" -> x.a \in Positions /\ x.b \in {0, 1} /\ ins[x.a].known /\ (x.b = 1 => ~Short)
       [] x.m = "revert" -> x.a = 0 /\ x.b = 0 /\ cur # orig
       [] OTHER -> FALSE
 
@@ -212,7 +216,10 @@ Apply(x) ==
          [] x.m = "unl_swap" -> ins' = [ins EXCEPT ![x.a].unl = ins[x.b].unl, ![x.b].unl = ins[x.a].unl,
                                                     ![x.a].enc = ins[x.b].enc, ![x.b].enc = ins[x.a].enc]
                                 /\ UNCHANGED <<ver, lock, outs>>
-         [] x.m = "forget" -> SetIn(x.a, "known", FALSE) /\ UNCHANGED <<ver, lock, outs>>
+         [] x.m = "forget" -> /\ ins' = IF x.b = 0 THEN [ins EXCEPT ![x.a].known = FALSE]
+                                        ELSE [p \in Positions |-> IF p >= x.a THEN [ins[p] EXCEPT !.known = FALSE, !.cut = TRUE]
+                                                                   ELSE ins[p]]
+                              /\ UNCHANGED <<ver, lock, outs>>
          [] x.m = "revert" -> ver' = orig.ver /\ lock' = orig.lock /\ ins' = orig.ins /\ outs' = orig.outs
     /\ inserts' = IF x.m \in {"ins_insert", "outs_insert"} THEN inserts + 1 ELSE IF x.m = "revert" THEN 0 ELSE inserts
     /\ lastval' = <<>>
